@@ -102,6 +102,19 @@ Theorem C11_precompile_run_gas_bounded : forall cost supplied r,
 Proof. exact run_precompile_gas_bounded. Qed.
 Print Assumptions C11_precompile_run_gas_bounded.
 
+(* RETURNDATACOPY indexes the return data, not memory: the code's bound check (256-bit sum, then conversion)
+   keeps the slice inside the return data for every operand pair the interpreter lets through (length < 2^64
+   by the memory-size calculation); computing the end in uint64 instead would not *)
+Theorem C11_returndatacopy_guard : forall rds off len,
+  0 <= off -> 0 <= len < U64 -> 0 <= rds ->
+  retdata_guard rds off len = true -> off + len <= rds /\ off < U64 /\ off + len < U64.
+Proof. exact retdata_guard_sound. Qed.
+Print Assumptions C11_returndatacopy_guard.
+Theorem C11_returndatacopy_wrap64_refuted :
+  retdata_guard_wrap64 0 (2 ^ 64 - 1) 1 = true /\ retdata_guard 0 (2 ^ 64 - 1) 1 = false.
+Proof. exact retdata_guard_wrap64_refuted. Qed.
+Print Assumptions C11_returndatacopy_wrap64_refuted.
+
 Section Machine.
   Context {W : Type}.
   Variable cfg : config.
@@ -123,6 +136,15 @@ Section Machine.
     (match snd r with LConst n => 0 <= n < U64 | LArg _ => True end) ->
     region_len (f_stk fr) r = 0 \/ sget (f_stk fr) (fst r) + region_len (f_stk fr) r <= f_mlen fr1.
   Proof. exact (access_in_bounds cfg orc Hwf). Qed.
+
+  (* ... and the operands it converts with Uint64() for those accesses are below 2^64: nothing is truncated *)
+  Theorem C11_memory_operands_fit_u64 : forall env fr w opc e fr1 cgt x r,
+    inv fr -> charge cfg orc env fr w = inr (opc, e, fr1, cgt) ->
+    exec_info (e_exec e) opc = Some x -> In r (x_mem x) ->
+    (match snd r with LConst n => 0 <= n < U64 | LArg _ => True end) ->
+    region_len (f_stk fr) r = 0 \/
+    (sget (f_stk fr) (fst r) < U64 /\ region_len (f_stk fr) r < U64 /\ sget (f_stk fr) (fst r) + region_len (f_stk fr) r < U64).
+  Proof. exact (access_fits_u64 cfg orc Hwf). Qed.
 
   (* gas left is between zero and the gas supplied *)
   Theorem C11_gas_bounded : forall n env fr w, inv fr -> good (fst (run cfg orc n env fr w)) (f_gas fr).
@@ -169,6 +191,7 @@ Section Machine.
 End Machine.
 Print Assumptions C11_step.
 Print Assumptions C11_memory_access_in_bounds.
+Print Assumptions C11_memory_operands_fit_u64.
 Print Assumptions C11_gas_bounded.
 Print Assumptions C11_frames_bounded.
 Print Assumptions C11_terminates.
